@@ -530,6 +530,21 @@ def run(F, rep):
                     pr = strip_tags(d.get("sample_priority"))
                     conds = [fmt(strip_tags(c[0])) for c in dominating_conds(f, bi, ex)]
                     kind = "pack boundary" if any("need_sync" in c or "pack_size" in c for c in conds) else ("sample boundary, env RAGC_SYNC_PER_SAMPLE" if any("force_sync" in c or "RAGC_SYNC" in c for c in conds) else "")
+                    if kind == "pack boundary":
+                        # in which input layouts can this round start?  follow the guard variables to where they are set
+                        texts = list(conds)
+                        for c_ in dominating_conds(f, bi, ex):
+                            e_ = strip_tags(c_[0])
+                            if isinstance(e_, tuple) and e_[0] == "var":
+                                for l_, nm_ in f.local_names().items():
+                                    if nm_ != e_[1]:
+                                        continue
+                                    for b2, blk2 in enumerate(f.blocks):
+                                        for s2 in blk2["stmts"]:
+                                            if s2["k"] == "assign" and s2["pl"]["l"] == l_ and not s2["pl"]["p"] and ex.rvalue(s2["rv"]) != ("const", 0):
+                                                texts.append(fmt(strip_tags(ex.rvalue(s2["rv"]))))
+                                                texts.extend(fmt(strip_tags(c2[0])) for c2 in dominating_conds(f, b2, ex))
+                        kind += ", single-file mode only" if any("concatenated_genomes" in x for x in texts) else ", every input layout"
                     if pr[0] == "const":
                         ok = pr[1] <= 1_000_000
                         rep.ob("C04-D6", "sync token in %s sorts after every queued contig (constant priority far below any contig priority)" % k.split("::", 1)[-1],
